@@ -358,7 +358,7 @@ class Linear1DGridManifoldInterpolationMethod(
         self__cache = self._cache
         if (self__cache['trial_data_state_id'] is not None) and\
            (self__cache['trial_data_state_id'] == trial_data_state_id) and\
-           (np.all(np.isclose(self__cache['x0'], x0))):
+           (np.array_equal(self__cache['x0'], x0)):
             return True
 
         return False
